@@ -56,7 +56,12 @@ func c17Input(k *h.Case, variant int) (string, h.Opts, string) {
 		font := []string{"1_latin_rse", "1_latin_frlg"}[k.R.IntN(2)]
 		src += "\ntext " + g.Name("TxtCc") + " { format(\"Press {UP_ARROW} {UP_ARROW} {DOWN_ARROW} {UP_ARROW} {LEFT_ARROW} {UP_ARROW} {RIGHT_ARROW} {UP_ARROW} {UP_ARROW} {DOWN_ARROW} {UP_ARROW} {UP_ARROW} {LEFT_ARROW} {UP_ARROW} {UP_ARROW} to continue {PLAYER}.\", \"" + font + "\") }\n"
 	}
-	switch variant % 8 {
+	switch variant % 9 {
+	case 8: // two errors that only the emitter finds, in two scripts of similar size: which one is reported must not vary
+		a, b := g.Name("TxtClashA"), g.Name("TxtClashB")
+		body := strings.Repeat("lock\nrelease\n", 1+k.R.IntN(6))
+		src += "\ntext " + a + " { \"one\" }\ntext " + b + " { \"two\" }\nscript " + g.Name("ScrClashA") + " {\n" + body + a + ":\nend\n}\nscript " + g.Name("ScrClashB") + " {\n" + body + b + ":\nend\n}\n"
+		class = "two-emitter-errors"
 	case 6: // two different duplicated text labels: which one is reported must not vary
 		a, b := g.Name("TxtDupA"), g.Name("TxtDupB")
 		src += "\ntext " + a + " { \"one\" }\ntext " + b + " { \"two\" }\ntext " + a + " { \"three\" }\ntext " + b + " { \"four\" }\n"
@@ -144,7 +149,7 @@ func runC17(ctx *h.Ctx) int {
 		if class == "named-format-params" {
 			n = 60
 		}
-		if class == "unknown-font" || class == "unknown-default-font" || class == "two-duplicate-texts" || class == "two-duplicate-movements" {
+		if class == "unknown-font" || class == "unknown-default-font" || class == "two-duplicate-texts" || class == "two-duplicate-movements" || class == "two-emitter-errors" {
 			n = 200 // map-order sensitive: a 2-entry map shows its minority order with probability 1/8 per iteration
 		}
 		for i := 0; i < n; i++ {
@@ -445,6 +450,7 @@ func runC17(ctx *h.Ctx) int {
 		}
 		if !full.OK() {
 			k.Count("rejected", 1)
+			rejectedValid(k, prog, full, false)
 			return
 		}
 		fp, fh := normBlocks(full.Out)
